@@ -87,29 +87,32 @@ type Outcome struct {
 type OutcomeKind int
 
 const (
-	OutOK OutcomeKind = iota
-	OutFail
+	OutOK    OutcomeKind = iota
+	OutFail              // the command exits with a non-zero status
+	OutError             // the command fails without an exit status (e.g. the script does not parse): the real runner
+	// reports the task as errored and returns the error even under allow_failure
 )
 
 // ---------------------------------------------------------------------------------------------
 
 // RunRec is one invocation of Run on a SimRunner.
 type RunRec struct {
-	Task      string
-	Commands  []string
-	Env       map[string]interface{}
-	Vars      map[string]interface{}
-	AllowFail bool
-	EnterSeq  int
-	ExitSeq   int // 0 while open
-	Refused   bool
-	Notified  bool // the start of the task has been reported to prunner
-	Released  bool
-	Outcome   Outcome
-	ByCancel  bool
-	Returned  bool
-	Err       error
-	ch        chan Outcome
+	Task         string
+	Commands     []string
+	Env          map[string]interface{}
+	Vars         map[string]interface{}
+	AllowFail    bool
+	EnterSeq     int
+	ExitSeq      int // 0 while open
+	Refused      bool
+	Notified     bool // the start of the task has been reported to prunner
+	Released     bool
+	Outcome      Outcome
+	ByCancel     bool
+	AllowedError bool // failed without an exit status under allow_failure
+	Returned     bool
+	Err          error
+	ch           chan Outcome
 }
 
 // SimRunner is the harness-owned taskctl.Runner handed to prunner for one start of one job. It
@@ -202,8 +205,12 @@ func (r *SimRunner) Run(t *task.Task) error {
 		w.mu.Lock()
 		rec.Returned = true
 		rec.Err = err
+		if err != nil && !rec.ByCancel && rec.AllowFail {
+			rec.Err = nil // a failure under allow_failure counts as an end the dependents may build on
+			rec.AllowedError = true
+		}
 		rec.ExitSeq = w.logLocked(EvRunExit, r, t.Name, note)
-		w.Events[len(w.Events)-1].OK = err == nil
+		w.Events[len(w.Events)-1].OK = rec.Err == nil
 		w.mu.Unlock()
 		return err
 	}
@@ -246,6 +253,15 @@ func (r *SimRunner) Run(t *task.Task) error {
 	}
 
 	switch out.Kind {
+	case OutError:
+		err := errors.New(out.ErrText)
+		if out.ErrText == "" {
+			err = errors.New("reached EOF without closing quote")
+		}
+		t.Errored = true
+		t.Error = err
+		r.notify(t)
+		return finish(err, "error without exit status")
 	case OutFail:
 		t.ExitCode = out.ExitCode
 		err := fmt.Errorf("exit status %d", out.ExitCode)
